@@ -12,8 +12,8 @@ THEOREMS = ['C01_prime_objects', 'C01_prime_properties', 'C01_intension', 'C01_e
             'C01_unknown_label']
 RUN_MODULE = 'Run.ObsC01'
 SHARD_SIZE = 150
-RULE = ('contexts: EXH(k) (k=9 quick / 12 thorough) + FAM + WIDE (31..130 wide) + RND; queries per context: all '
-        'subsets of each side when it has <= 6 (quick) / 10 (thorough) members, else structured + 64 random, plus '
+RULE = ('contexts: EXH(k) (k=9 quick / 10 thorough) + FAM + WIDE (31..130 wide) + RND; queries per context: all '
+        'subsets of each side when it has <= 6 (quick) / 8 (thorough) members, else structured + 64 random, plus '
         'duplicated/shuffled argument lists and an unknown label; observation = intension/extension in label and raw '
         'form, Context.bools/objects/properties; non-trivial = context having a query whose result is neither empty '
         'nor full, or wider than 64; distinct by (nG, nM, rows)')
@@ -25,7 +25,7 @@ def observe(cx, tier, seed, impl=None):
         return Case(f'({cx.coq()}, [-1], [])', cx.to_json(), False, [{'Context() raised': repr(impl)}], sig=cx.key())
     ctx = impl if impl is not None else util.make_context(cx)
     r = random.Random(seed * 1000003 + hash(cx.key()) % 1000003)
-    limit = 6 if tier == 'quick' else 10
+    limit = 6 if tier == 'quick' else 8
     queries, subs = [], []
     nontrivial = cx.nG > 64 or cx.nM > 64
     for side, n, labels, other_labels, fn in ((True, cx.nG, cx.objects, cx.properties, ctx.intension),
@@ -39,11 +39,13 @@ def observe(cx, tier, seed, impl=None):
                 extra.append(d)
         extra.append([0, n + 3])              # an unknown label
         extra.append([n])                     # only an unknown label
-        for args in arglists + extra:
+        for qi, args in enumerate(arglists + extra):
             labs = [labels[i] if i < n else f'?unknown{i}' for i in args]
+            # the argument is any iterable: lists, tuples, one-shot iterators and generators in turn
+            wrap = [list, tuple, iter, lambda l: (x for x in l)][qi % 4]
             try:
-                res = fn(labs)
-                raw = fn(labs, raw=True)
+                res = fn(wrap(labs))
+                raw = fn(wrap(labs), raw=True)
                 obs = (0, natlist(util.idx(res, other_labels)), int(raw))
                 if not isinstance(res, tuple) or raw.members() != res:
                     obs = (8, natlist([]), 0)
@@ -64,7 +66,7 @@ def observe(cx, tier, seed, impl=None):
 
 
 def cases(tier, seed):
-    ctxs = util.contexts_for(tier, seed, rnd_quick=200, rnd_thorough=1500)
+    ctxs = util.contexts_for(tier, seed, exh_thorough=10, rnd_quick=200, rnd_thorough=1500)
     impls = util.prebuild(ctxs)
     return [observe(cx, tier, seed, impl) for cx, impl in zip(ctxs, impls)]
 
